@@ -139,7 +139,7 @@ def meta(idx: int, rf0: bool, rf1: bool) -> bool:
     pre: LO <= idx < HI
     post: _
     """
-    idx = xs.R(idx)
+    idx = xs.pick(idx, LO, HI)
     with xs.nt():
         text, rcs, hints, fcs, name, text2, alpha_code = cases()[idx]
         sel = shapes.digits(alpha_code, [3] * 4)
@@ -229,7 +229,7 @@ def prec(idx: int) -> bool:
     pre: LO <= idx < HI
     post: _
     """
-    idx = xs.R(idx)
+    idx = xs.pick(idx, LO, HI)
     with xs.nt():
         mn, full, ac = prec_cases()[idx]
         if P_ALPHAS == 8:
